@@ -14,7 +14,8 @@ RULE = ("configs: random line lists (length 0..18) mixing commands, comments wit
         "Word characters (\\w) are generated only below U+0100. "
         "Coverage streams (harness/covreport.py, notes/coverage/C01.json): 'options' -- the same random configs, some with a list element "
         "holding a line end ('x\\n', 'x\\r\\n', '\\n' alone, 'a\\nb'), each parsed under one more parse option set: config given as a "
-        "TUPLE, debug 1/2/4/5 (runs every 'if debug' statement of the anchored functions), auto_commit=False, auto_indent_width 0/3/8; "
+        "TUPLE, debug 1/2/4/5 (runs every 'if debug' statement of the anchored functions), auto_commit=False, auto_indent_width 0/3/8, and 30 % with a comment delimiter set beyond the four standard ones "
+        "(a letter, a brace, the euro sign, a tab or blank, duplicates, banner delimiter characters); "
         "'factory-lines' -- configs over the lines the typed-model classes of config_line_factory claim for the syntax (ios routes / "
         "interfaces / line vty, asa access-list / name / object / object-group, nxos vpc, iosxr interfaces), well-formed ones, ones a model "
         "constructor rejects with ValueError ('ip route junk', 'access-list x', 'name x y': the parse raises, which C01 allows with factory "
@@ -75,7 +76,7 @@ def cases(rng, tier):
     # elements holding a line end, and lines the typed-model factory classes claim (accepted, rejected, swallowed)
     for _ in range({"quick": 700, "thorough": 20000, "search": 800}[tier]):
         syntax = rng.choice(T.SYNTAXES)
-        delims = rng.choice(T.DELIM_SETS)
+        delims = rng.choice(T.DELIM_SETS) if rng.random() < 0.7 else rng.choice(T.EXOTIC_DELIM_SETS)
         factory = rng.random() < 0.3
         ign = (not factory) and rng.random() < 0.4
         lines = T.rand_config(rng, 10, True, delims, 0.25 if rng.random() < 0.3 else 0.0)
